@@ -1,6 +1,7 @@
 import Mouette.Lemmas.SubdivSource4
 import Mouette.Lemmas.SubdivComponents5
 import Mouette.Lemmas.SubdivBorder3
+import Mouette.Lemmas.SubdivUmbrella
 import Mouette.Lemmas.SubdivSource6
 import Mouette.Props.C13
 /-!
@@ -408,6 +409,29 @@ theorem border_loops_preserved_fan_quad_cut (m m' : Raw) :
     have hb := quad_border_eq m m' fid a b c d hf h h1 h2
     exact ⟨hb, succ_of_border_eq m m' hb, walk_of_border_eq m m' hb⟩
 
+/-- **the vertex umbrella condition through `split_face_as_fan`** (round 9).  A corner at `v` goes from `p` to `q` when a face
+has the consecutive sides (p → v), (v → q); the corners are the edges of the link of `v`.
+(1) The corners at the NEW vertex are exactly the reversed directed sides of the split face, so its link is the boundary
+cycle of the face: one closed fan, connected.  (2) At an OLD vertex the corners of the other faces are kept and the corner
+(p → v → q) of the split face is replaced by (p → v → new), (new → v → q); so every link walk of the input lifts: the fan of
+an old vertex stays one fan.  (Faces without a degenerate side.) -/
+theorem umbrella_preserved_fan (m m' : Raw) (fid : Nat) (hwf : WF m) (hn : ∀ f ∈ m.faces, ∀ s ∈ cycPairs f, s.1 ≠ s.2)
+    (h : splitFaceAsFan m fid = .ok m') :
+    ∃ f, m.faces[fid]? = some f ∧
+      (∀ p q, Corner m' m.verts.length p q ↔ (q, p) ∈ cycPairs f) ∧
+      (∀ u ∈ f, ∀ w ∈ f, LinkConn m' m.verts.length u w) ∧
+      (∀ v p q, v < m.verts.length → (Corner m' v p q ↔
+        (∃ j g, j ≠ fid ∧ m.faces[j]? = some g ∧ (p, v) ∈ cycPairs g ∧ (v, q) ∈ cycPairs g) ∨
+        (q = m.verts.length ∧ (p, v) ∈ cycPairs f) ∨ (p = m.verts.length ∧ (v, q) ∈ cycPairs f))) ∧
+      (∀ v a b, v < m.verts.length → LinkConn m v a b → LinkConn m' v a b) := by
+  obtain ⟨f, hf, h1⟩ := fan_new_vertex_corners m m' fid hwf h
+  obtain ⟨f2, hf2, h2⟩ := fan_new_vertex_umbrella m m' fid hwf h
+  obtain ⟨f3, hf3, h3⟩ := fan_old_vertex_corners m m' fid hwf hn h
+  have e2 : f2 = f := Option.some.inj (hf2.symm.trans hf)
+  have e3 : f3 = f := Option.some.inj (hf3.symm.trans hf)
+  subst e2; subst e3
+  exact ⟨_, hf, h1, h2, h3, fun v a b hv hc => fan_old_vertex_umbrella m m' fid hwf hn h v hv a b hc⟩
+
 /-- the same three facts on the body translated from the source -/
 theorem quads3_source (m m' : Raw) (h3 : ∀ f ∈ m.faces, f.length = 3) (hes : EdgesSorted m) (ho : OrientedSides m)
     (h : C13Src.quads3 m = .ok m') : OrientedSides m' ∧ CompPres m m' := by
@@ -450,6 +474,12 @@ example : ∃ m', sub6 witnessMesh 1 = .ok m' ∧ (dirSides m').length = 36 ∧ 
 -- the pentagon has a border loop of five sides, before and after the fan
 example : IsBorder pentagon (0, 1) ∧ ∃ m', splitFaceAsFan pentagon 0 = .ok m' ∧ (0, 1) ∈ dirSides m' ∧ (1, 0) ∉ dirSides m' :=
   ⟨⟨by decide, by decide⟩, _, rfl, by decide, by decide⟩
+-- umbrella: the hypotheses hold on the pentagon mesh (6 vertices); after the fan the new vertex 6 has the corner
+-- (1 → 6 → 0), and the old vertex 1 has the two corners (0 → 1 → 6), (6 → 1 → 2) in place of (0 → 1 → 2)
+example : (∀ f ∈ pentagon.faces, ∀ s ∈ cycPairs f, s.1 ≠ s.2) ∧ Corner pentagon 1 0 2 ∧
+    ∃ m', splitFaceAsFan pentagon 0 = .ok m' ∧ [1, 2, 6] ∈ m'.faces ∧ [0, 1, 6] ∈ m'.faces ∧
+      (1, 6) ∈ cycPairs [0, 1, 6] ∧ (6, 0) ∈ cycPairs [0, 1, 6] :=
+  ⟨by decide, ⟨[0, 1, 2, 3, 4], by decide, by decide, by decide⟩, _, rfl, by decide, by decide, by decide, by decide⟩
 -- the quad cut on a regular complex: the hypotheses of `manifold_preserved_quad_cut` are satisfiable
 example : ∃ m', triangulateFace ⟨[(0,0,0),(1,0,0),(1,1,0),(0,1,0)], [(0,1),(1,2),(2,3),(0,3)], [[0,1,2,3]], []⟩ 0 = .ok m' ∧
     m'.faces = [[0,1,3],[1,2,3]] ∧ (1, 3) ∉ dirSides ⟨[], [], [[0,1,2,3]], []⟩ ∧ (3, 1) ∉ dirSides ⟨[], [], [[0,1,2,3]], []⟩ :=
